@@ -128,13 +128,20 @@ Definition attr_group (name : str) (s : str) : option str :=
 Definition CSS_ID : str := s2n " data-djc-css-".
 Definition COMP_ID : str := s2n " data-djc-id-".
 
-(* (?: data-djc-id-\w{6}="")*  - greedy; giving an iteration back never helps because what follows starts
-   with '/' or '>' and a group starts with ' '.  Fuel = length of the string (each iteration consumes 21). *)
-Fixpoint id_groups (fuel : nat) (s : str) : str :=
+(* (?: data-djc-(?:id|css)-\w{6}="")*  (since fix be574c3: id and css attributes in any order and number) - greedy;
+   giving an iteration back never helps because what follows starts with '/' or '>' and a group starts with ' ';
+   the two alternatives exclude each other ("id-" / "css-").  Fuel = length of the string (an iteration consumes >= 21). *)
+Definition any_group (s : str) : option str :=
+  match attr_group COMP_ID s with
+  | Some r => Some r
+  | None => attr_group CSS_ID s
+  end.
+
+Fixpoint attr_groups (fuel : nat) (s : str) : str :=
   match fuel with
   | O => s
-  | S f => match attr_group COMP_ID s with
-           | Some s' => id_groups f s'
+  | S f => match any_group s with
+           | Some s' => attr_groups f s'
            | None => s
            end
   end.
@@ -145,8 +152,7 @@ Definition JS_OPEN : str := s2n "<script name=""JS_PLACEHOLDER""".
 Definition match_ph (s : str) : option (nat * kind) :=
   match lit CSS_OPEN s with
   | Some s1 =>
-      let s2 := opt (attr_group CSS_ID) s1 in
-      let s3 := id_groups (length s2) s2 in
+      let s3 := attr_groups (length s1) s1 in
       let s4 := opt (lit (s2n "/")) s3 in
       match lit (s2n ">") s4 with
       | Some s5 => Some (length s - length s5, KCss)
@@ -155,8 +161,7 @@ Definition match_ph (s : str) : option (nat * kind) :=
   | None =>
     match lit JS_OPEN s with
     | Some s1 =>
-        let s2 := opt (attr_group CSS_ID) s1 in
-        let s3 := id_groups (length s2) s2 in
+        let s3 := attr_groups (length s1) s1 in
         match lit (s2n "></script>") s3 with
         | Some s5 => Some (length s - length s5, KJs)
         | None => None
